@@ -369,7 +369,19 @@ func GenOdd(r *core.PRNG) string {
 	ctl := core.Pick(r, []string{"break", "continue", "break", "if true { break }", "for { break }; break", "switch { case true: continue }", "return"})
 	loop := core.Pick(r, []string{"for", "for i := 0; i < 2; i++", "for _, v := range []int{1, 2}", "for k := range map[string]int{\"a\": 1}"})
 	n := core.Pick(r, wildInts)
-	switch r.Intn(25) {
+	switch r.Intn(27) {
+	case 25, 26:
+		// structs with exactly 2^k fields (and their neighbours): methods, unknown attributes, printing
+		n := core.Pick(r, []int{1, 2, 7, 8, 9, 15, 16, 17, 31, 32, 33, 63, 64, 65, 128})
+		var fs, init []string
+		for i := 0; i < n; i++ {
+			fs = append(fs, fmt.Sprintf("F%d int", i))
+			if r.Chance(1, 3) {
+				init = append(init, fmt.Sprintf("F%d: %d", i, i))
+			}
+		}
+		use := core.Pick(r, []string{"t.Sum()", "t.Nope", "t.Nope()", "t.F0 + t.Sum()", "fmt.Sprint(t)", "t.Nope = 1; t.F0", "u := *t; u.Sum()"})
+		return "import \"fmt\"; type T struct { " + strings.Join(fs, "; ") + " }; func (t *T) Sum() int { return t.F0 + 1 }; t := &T{" + strings.Join(init, ", ") + "}; println(fmt.Sprint(t.F0)); " + use
 	case 23, 24:
 		// grouped declarations (a, b T) nested deeply: func-typed parameters and struct-typed
 		// fields whose type again has grouped names, in every place a type or literal may stand
